@@ -10,6 +10,7 @@
 -/
 import MitmVerif.Model.C47
 import MitmVerif.Model.C47_Conv
+import MitmVerif.Props.C40
 namespace MitmVerif.Props.C47
 open MitmVerif.C47
 
@@ -532,5 +533,24 @@ example : headerOutcomes (.list [.seq [.str [97], .str [98]], .seq [.str [99]], 
   decide
 example : headerOutcomes .notIterable = [true, false] ∧ headerOutcomes (.chars 0) = [true] ∧ headerOutcomes (.chars 2) = [true, false] := by
   decide
+
+
+/-! ## round 5: the roll-back at the level of message OBJECTS (C40's heap of Headers objects) -/
+
+/-- **the roll-back cannot be disturbed by in-place edits.**  `FlowHandler.put` takes `old_state = flow.get_state()` — in
+    C40's transcription of `MessageData.get_state` a pure value in which every `Headers` object is serialised — then edits
+    the message in place (`headers.clear()`, `headers.add`, `.content = …`, new trailer objects: any list `es` of C40's
+    message edits), and on failure calls `set_state(old_state)`, which rebuilds the message with `Message.from_state`.
+    Whatever the edits did to the heap, the rebuilt message's state is the snapshot.  (Seed c47-3 — a `get_state` that kept
+    the live, empty `Headers` object — is exactly a `get_state` that is not this function.) -/
+theorem put_rollback_object_level (h : C40.OHeap) (o : C40.MsgObj) (es : List C40.MsgEdit) :
+    (C40.MsgObj.fromState (C40.applyObjs es h o).1 (o.getState h)).2.getState
+        (C40.MsgObj.fromState (C40.applyObjs es h o).1 (o.getState h)).1 = o.getState h :=
+  (C40.fromState_fresh_roundtrip _ _).1
+
+/-- … and the rebuilt message shares no `Headers` object with anything that existed before the roll-back -/
+theorem put_rollback_objects_fresh (h : C40.OHeap) (o : C40.MsgObj) (es : List C40.MsgEdit) :
+    ∀ a ∈ (C40.MsgObj.fromState (C40.applyObjs es h o).1 (o.getState h)).2.refs, (C40.applyObjs es h o).1.next ≤ a :=
+  (C40.fromState_fresh_roundtrip _ _).2.2.1
 
 end MitmVerif.Props.C47
